@@ -640,6 +640,22 @@ func (h *llH) release(c llCand, same *llConn) *llConn {
 		return nil
 	}
 	a := c.a
+	var tgt *llConn
+	if c.kind == llCloseOpen || c.kind == llCloseAgain {
+		ts := h.closeTargets(c.kind == llCloseAgain)
+		switch {
+		case same != nil:
+			tgt = same
+			vs.G.Inc("probe.race_two_closers_same_conn")
+		case len(ts) > 0:
+			tgt = ts[h.sim.C.Intn(len(ts))]
+		default:
+			// an earlier participant of this race event took the only target:
+			// the closer stays parked
+			h.tr.Ev("  %s stays parked (no target left)", a.name)
+			return nil
+		}
+	}
 	a.mu.Lock()
 	a.parked = false
 	a.mu.Unlock()
@@ -648,16 +664,8 @@ func (h *llH) release(c llCand, same *llConn) *llConn {
 		return nil
 	}
 	op := &llOp{actor: a.id, kind: c.kind, call: h.stepCall, cid: -1}
-	var tgt *llConn
 	switch c.kind {
 	case llCloseOpen, llCloseAgain:
-		ts := h.closeTargets(c.kind == llCloseAgain)
-		if same != nil {
-			tgt = same
-			vs.G.Inc("probe.race_two_closers_same_conn")
-		} else {
-			tgt = ts[h.sim.C.Intn(len(ts))]
-		}
 		if tgt.closeCalled > 0 {
 			vs.G.Inc("probe.close_again")
 		}
@@ -929,7 +937,7 @@ var llProbes = []string{
 	"probe.repeated_close_returned", "probe.accept_blocked", "probe.accept_blocked_at_limit",
 	"probe.two_or_more_accepts_blocked", "probe.blocked_accept_released", "probe.at_limit",
 	"probe.accept_closed_error",
-	"probe.porcupine_checked", "probe.porcupine_unknown",
+	"probe.porcupine_checked", // probe.porcupine_unknown is counted when it happens; zero is the expected value
 }
 
 func llRun(t *testing.T, rt *rapid.T) {
